@@ -1,6 +1,9 @@
 package main
 
 import (
+	"strings"
+	"encoding/base64"
+	"encoding/json"
 	"bytes"
 	"fmt"
 	"math"
@@ -264,5 +267,48 @@ func streamNS(c *Ctx) {
 			v >>= uint(c.rng.Intn(63))
 		}
 		addint(a, v)
+	}
+	// JSON construction into receivers that already hold a value: a refused document leaves the receiver as it
+	// was, and no document (base64 or array-of-numbers form) may write through a receiver copied from a
+	// package-level namespace
+	pkgBefore := hx(share.TxNamespace.Bytes()) + hx(share.PayForBlobNamespace.Bytes()) + hx(share.TailPaddingNamespace.Bytes()) + hx(share.ParitySharesNamespace.Bytes()) + hx(share.PrimaryReservedPaddingNamespace.Bytes())
+	arr := func(b []byte) string {
+		parts := make([]string, len(b))
+		for i, x := range b {
+			parts[i] = fmt.Sprint(x)
+		}
+		return "[" + strings.Join(parts, ",") + "]"
+	}
+	user := append(make([]byte, 19), bytes.Repeat([]byte{7}, 10)...)
+	for _, base := range []share.Namespace{share.TxNamespace, share.PayForBlobNamespace, share.TailPaddingNamespace} {
+		for _, doc := range []struct {
+			js string
+			ok bool
+		}{
+			{arr(user), true},
+			{"\"" + base64.StdEncoding.EncodeToString(user) + "\"", true},
+			{arr(append([]byte{3}, make([]byte, 28)...)), false},                             // unsupported version
+			{arr(make([]byte, 28)), false},                                                    // wrong length
+			{"\"" + base64.StdEncoding.EncodeToString(append([]byte{0, 1}, make([]byte, 27)...)) + "\"", false}, // version 0 with a non-zero prefix byte
+		} {
+			c.oracle()
+			recv := base // a copy of the package-level value
+			held := hx(recv.Bytes())
+			err := json.Unmarshal([]byte(doc.js), &recv)
+			if (err == nil) != doc.ok {
+				c.violate("C18", "", fmt.Sprintf("Namespace.UnmarshalJSON accepted=%v, specified=%v", err == nil, doc.ok), doc.js, nil)
+			}
+			if err != nil && hx(recv.Bytes()) != held {
+				c.violate("C18", "", "a refused JSON document left the receiving namespace modified (it no longer holds the value it had)", doc.js, nil)
+			}
+			if err == nil && !bytes.Equal(recv.Bytes(), user) {
+				c.violate("C18", "", "an accepted JSON document did not decode to the encoded namespace", doc.js, nil)
+			}
+			now := hx(share.TxNamespace.Bytes()) + hx(share.PayForBlobNamespace.Bytes()) + hx(share.TailPaddingNamespace.Bytes()) + hx(share.ParitySharesNamespace.Bytes()) + hx(share.PrimaryReservedPaddingNamespace.Bytes())
+			if now != pkgBefore {
+				c.violate("C18", "", "decoding JSON into a copy of a package-level namespace changed the package-level namespace itself", doc.js, nil)
+				return
+			}
+		}
 	}
 }
